@@ -150,6 +150,18 @@ def flavour_facts(root, fl):
                 raise ValueError(f'two explicit impls of {k[1]} for {k[0]}')
             merged['impls'][k] = v
     merged['sync'] = sync_imports
+    # an explicit Send/Sync impl anywhere else in the flavour (a search object, an iterator, a helper type) is outside
+    # the model: say so rather than translate a part of the picture
+    base = os.path.join(root, 'src', fl)
+    for dp, _dn, fns in os.walk(base):
+        for fn in fns:
+            rel = os.path.relpath(os.path.join(dp, fn), root)
+            if not fn.endswith('.rs') or rel in files:
+                continue
+            src = strip_comments(open(os.path.join(dp, fn)).read())
+            m = re.search(r'unsafe\s+impl\b[^{;]*\b(Send|Sync)\s+for\s+([A-Za-z_][A-Za-z0-9_]*)', src)
+            if m:
+                raise ValueError(f'{fl}: explicit {m.group(1)} impl for unmodelled type {m.group(2)} in {rel}')
     return merged
 
 
